@@ -268,11 +268,8 @@ Proof. apply option_eqb_eq, frames_eqb_eq. Qed.
 Lemma map_idf l : map idf l = l.
 Proof. unfold idf. apply map_id. Qed.
 
-Lemma in_domain_sum os : forallb skip_nonneg os = true -> 0 <= sum_skips os.
-Proof.
-  induction os as [|o r IH]; simpl; [lia|]. intros H. apply andb_true_iff in H as [H1 H2].
-  specialize (IH H2). destruct o; simpl in H1; lia.
-Qed.
+Lemma in_domain_sum os : Z.leb 0 (sum_skips os) = true -> 0 <= sum_skips os.
+Proof. apply Z.leb_le. Qed.
 
 (* the model's stack is the specification's frame list *)
 Lemma model_stack_spec c :
